@@ -83,6 +83,12 @@ package iavl
 //@   loop 1 invariant !old(fault) && fault ==> parked[itr]
 //@   modifies fault, parked
 
+//@ func (*nodeDB).traversePrefix(ndb, prefix, fn) (err)
+//@   props C17
+//@   ensures [errflow] !old(fault) && fault ==> err != nil
+//@   loop 1 invariant !old(fault) && fault ==> parked[itr]
+//@   modifies fault, parked
+
 //@ func (*MutableTree).enableFastStorageAndCommit(tree) (err)
 //@   props C17
 //@   ensures [errflow] !old(fault) && fault ==> err != nil
